@@ -23,3 +23,10 @@ package eventnotifier
 //@   loop 1 exhaustive   #C20.every-subscriber-is-offered-the-event @C20
 //@ func (*EventNotifier).publishCert
 //@   loop 1 exhaustive   #C20.every-subscriber-is-offered-the-certificate @C20
+// ... and the per-subscriber writer never does socket I/O while it holds the notifier's mutex: a subscriber that
+// stops reading would otherwise make the next publisher (and the certificate handler behind it) wait for that mutex
+//@ import "io"
+//@ import "bufio"
+//@ func (*EventNotifier).handleConnection
+//@   atcall transmitV0 requires (w io.Writer, ev eventmon.EventV0) :: !held(&n.mutex)   #C20.no-socket-write-under-the-notifier-mutex @C20
+//@   atcall (*bufio.Writer).Flush requires (bw *bufio.Writer) :: !held(&n.mutex)   #C20.no-socket-flush-under-the-notifier-mutex @C20
